@@ -276,8 +276,13 @@ func (codecHTTPBody) Unmarshal(data []byte, v interface{}) error {
 func (codecHTTPBody) Name() string { return "body" }
 
 func (codecHTTPBody) ReadNext(b []byte, r io.Reader, limit int) ([]byte, int, error) {
-	var total int
+	total := len(b) // bytes carried over from the previous call count too
 	for {
+		if total >= limit {
+			// A full chunk is buffered, possibly with excess. A read error
+			// seen meanwhile is reported again by the reader on the next call.
+			return b, limit, nil
+		}
 		if len(b) == cap(b) {
 			// Add more capacity (let append pick how much).
 			b = append(b, 0)[:len(b)]
@@ -285,10 +290,7 @@ func (codecHTTPBody) ReadNext(b []byte, r io.Reader, limit int) ([]byte, int, er
 		n, err := r.Read(b[len(b):cap(b)])
 		b = b[:len(b)+n]
 		total += int(n)
-		if total > limit {
-			total = limit
-		}
-		if err != nil || total == limit {
+		if err != nil && total <= limit {
 			return b, total, err
 		}
 	}
